@@ -51,7 +51,7 @@ func props() map[string]*propCfg {
 	m := map[string]*propCfg{
 		"C01": {ID: "C01", Engine: "startsim", Level: "exploration", Families: []famShare{{gen.FamWire, 0.5}, {gen.FamSubst, 0.5}}, QProgs: 320, QK: 8, TProgs: 480, TK: 48,
 			Rule: "programs are generated from VERIF_SEED (dependency graphs with fan-in, cycles, slices, by-name/qualified edges; half of them with substituting post-processors); each is started under K schedules (canonical, reversed, random registration order x registry enumeration orders x property-group order x scan-phase interleaving). A run is non-trivial if some object is held by >= 2 points or an early reference was produced (a cycle was entered); distinct = distinct (program shape, registry path signature) pairs among those."},
-		"C02": {ID: "C02", Engine: "startsim", Level: "exploration", Families: wire, QProgs: 400, QK: 8, TProgs: 480, TK: 48,
+		"C02": {ID: "C02", Engine: "startsim", Level: "exploration", Families: []famShare{{gen.FamWire, 0.8}, {gen.FamSubst, 0.2}}, QProgs: 400, QK: 8, TProgs: 480, TK: 48,
 			Rule: "generated dependency graphs without substitution (structured corpora first: all digraphs over <= 3 pointer-wired components, ring rotations; then random graphs); K schedules each. Non-trivial = an early reference was produced (a cycle was entered) or the program has a point whose only candidate is its holder; distinct = distinct (program shape, registry path signature)."},
 		"C06": {ID: "C06", Engine: "startsim", Level: "exploration", Families: wire, QProgs: 400, QK: 8, TProgs: 480, TK: 48,
 			Rule: "generated provider/consumer populations; K schedules each; non-trivial = some point has >= 2 compatible candidates; distinct = distinct (program shape, registry path signature)."},
